@@ -22,6 +22,10 @@ func (P) Rule() string {
 		"transactions in both orders, followed in the same block by the sender's next nonce, twice the same, then replayed through the mempool and forced again, also after a restart, and GAS-underfunded ones " +
 		"(block invalid): the real Process commits the former with a FAILED receipt (status 0, gas 0, nonce bumped, nothing moves) — balances, foundation, supply, nonces and the receipts are compared with the " +
 		"receipt-accurate ledger model (Model.LedgerR); " +
+		"a third stream (`chain ... code=2 rec=1`) runs contract CREATIONS (init code returning code / nothing / REVERT / invalid opcode / oversize / maximal code / JSON payload, with and without " +
+		"endowment, at the gas boundaries), a value-MOVING contract (keep, CALL-forward, forward half, forward-then-revert, forward-then-invalid, TRANSFERTOKEN, sweep, SELFDESTRUCT to an account / a fresh " +
+		"address / itself), token-carrying calls, transfers to addresses that do not exist, and confidential transactions of the shapes the semantic check refuses; it observes every address a contract can pay (`balx`) " +
+		"and the application's OWN audit log of balance movements (`recs`): state change per bucket over a block = net of that block's balance records; the only accepted destruction is a contract destroying itself in its own favour, by exactly its holdings; " +
 		"monitors: total native and token supply constant, tampered txs never admitted, fees debited = fees credited, a failed receipt charges nothing; " +
 		"non-trivial = at least two blocks with a transaction and at least one confidential transaction committed; distinct = distinct op sequence"
 }
@@ -37,9 +41,11 @@ func (P) Monitor(c *hx.CaseRun) []hx.Failure {
 	supply, toks := "", ""
 	claim := false
 	allFailed, prevBal := false, ""
+	xm := newXMon()
 	for i, op := range c.Ops {
 		ans := c.Impl[i]
 		toks_ := hx.Tokens(op)
+		fs = append(fs, xm.step(op, toks_, ans)...)
 		if v, ok := hx.Arg(toks_, "claim"); ok && v != "" {
 			claim = true
 		}
@@ -267,6 +273,10 @@ func (P) Generate(g *hx.Gen) {
 	for k, nu := 0, g.Pick(40, 400); k < nu; k++ {
 		g.Case("underfunded forced blocks", WithReceipts(UnderfundedCase(g)), true)
 	}
+	g.Case("corpus: creations, value-moving contract, token calls, refused shapes", WithReceipts(ContractCorpus), true)
+	for k, nc := 0, g.Pick(50, 400); k < nc; k++ {
+		g.Case("contracts: creation / value moved by contracts / token value / refused shapes", WithReceipts(ContractCase(g)), true)
+	}
 	n := g.Pick(200, 1200)
 	for k := 0; k < n; k++ {
 		trie := g.Rng.Intn(2)
@@ -412,7 +422,7 @@ func WithReceipts(ops []string) []string {
 		ans := hx.SafeExec(execOf(&ex), op)
 		out = append(out, op)
 		at := hx.Tokens(ans)
-		if id, ok := hx.Arg(at, "id"); ok && strings.HasPrefix(op, "call") {
+		if id, ok := hx.Arg(at, "id"); ok && (strings.HasPrefix(op, "call") || strings.HasPrefix(op, "create") || strings.HasPrefix(op, "mcall") || strings.HasPrefix(op, "xferx")) {
 			opOf[id] = len(out) - 1
 		}
 		if (strings.HasPrefix(op, "block") || strings.HasPrefix(op, "forceblock")) && strings.HasPrefix(ans, "h=") {
@@ -441,3 +451,362 @@ type execRef struct{ c *appsim.ChainExec }
 
 func (e execRef) Exec(op string) string { return e.c.Exec(op) }
 func execOf(c *appsim.ChainExec) hx.Executor { return execRef{c} }
+
+// PayDeadContractInSameBlock gates the cases in which a transaction pays a contract that an EARLIER transaction of the same
+// block destroyed (SELFDESTRUCT): on the unchanged tree that value vanishes (proposed/C06-pay-selfdestructed-same-block.md).
+const PayDeadContractInSameBlock = false
+
+// ContractCorpus: one hand-made chain through every new op.
+var ContractCorpus = []string{
+	"case tags=contracts",
+	"chain trie=1 accts=3 wallets=2 seed=7 code=2 rec=1",
+	"balx",
+	"create from=0 kind=ok nonce=0 value=100 gas=3000000",
+	"create from=1 kind=ok nonce=0 value=0 gas=3000000",
+	"create from=2 kind=json nonce=0 value=5 gas=500000",
+	"ain from=2 w=0 amount=30000000000 nonce=1",
+	"block", "balx", "recs h=1",
+	"mcall from=0 nonce=1 m=2 to=c0 at=0 value=40 gas=3000000",
+	"mcall from=1 nonce=1 m=2 to=b1 at=1 value=6 gas=3000000",
+	"xferx from=2 nonce=2 to=b0 amount=123",
+	"block", "balx", "recs h=2",
+	"uxbad shape=ainaout from=0 w=0 to=1 amount=20000000000 nonce=2",
+	"uxbad shape=aout2 w=0 in=0 amount=1000",
+	"uxbad shape=cout w=0 in=0 amount=1000",
+	"xferx from=2 nonce=3 to=b0 amount=123 gas=600000",
+	"mcall from=0 nonce=2 m=3 to=b1 value=10 gas=3000000",
+	"mcall from=1 nonce=2 m=5 to=a2 value=40 gas=3000000",
+	"mcall from=2 nonce=3 m=6 to=a0 value=78 gas=3000000",
+	"block", "balx", "recs h=3",
+	"mcall from=0 nonce=3 m=7 to=a1 value=10 gas=3000000",
+	"mcall from=1 nonce=3 m=8 to=b0 value=3 gas=3000000",
+	"mcall from=2 nonce=4 m=1 to=b0 value=1000 gas=1000000",
+	"block", "balx", "recs h=4",
+	"mcall from=0 nonce=4 m=0 to=a1 value=10 tok=1",
+	"mcall from=1 nonce=4 m=4 to=b0 value=30 tok=1",
+	"calltok from=2 nonce=5 c=3 value=5",
+	"calltok from=0 nonce=5 c=255 value=6",
+	"block", "balx", "recs h=5",
+	"create from=0 kind=ok nonce=6 value=0 gas=90000",
+	"create from=1 kind=ok nonce=5 value=0 gas=64000",
+	"create from=2 kind=max nonce=6 value=0 gas=6000000",
+	"forceblock ids=21,22,23", "balx", "recs h=6", "nonces",
+}
+
+// ContractCase: chains over the extended contract set.  Ids are exact (every op that builds a transaction registers it).
+func ContractCase(g *hx.Gen) []string {
+	r := g.Rng
+	ops := []string{hx.CaseOp("contracts"), fmt.Sprintf("chain trie=%d accts=3 wallets=2 seed=%d code=2 rec=1", r.Intn(2), 1+r.Intn(1000)), "balx"}
+	add := func(f string, a ...interface{}) { ops = append(ops, fmt.Sprintf(f, a...)) }
+	nonce := []int{0, 0, 0}
+	ncreate := 0
+	ckey := map[string]int{} // (sender, nonce, kind) -> index of the observed creation address (a function of these three)
+	created := func(from, n int, kind string) int {
+		k := fmt.Sprintf("%d/%d/%s", from, n, kind)
+		if j, ok := ckey[k]; ok {
+			return j
+		}
+		ckey[k] = ncreate
+		ncreate++
+		return ncreate - 1
+	}
+	var alive []int // created Mover instances (index among the creates) that exist and have not destroyed themselves
+	funded := false // wallet 0 owns output 0
+	height := 0
+	values := []int64{0, 0, 2, 10, 500, 77770, 100000000, 100000002, 250000000} // units; 10^8 units = the first step of the value-proportional gas
+	target := func() string {
+		if r.Intn(2) == 0 {
+			return fmt.Sprintf("a%d", r.Intn(3))
+		}
+		return fmt.Sprintf("b%d", r.Intn(2))
+	}
+	blocks := 3 + r.Intn(g.Pick(3, 5))
+	for b := 0; b < blocks; b++ {
+		var born []int
+		touched := map[int]bool{}
+		ntx := 1 + r.Intn(4)
+		if b == 0 { // some instances to work with, a confidential output for the refused shapes
+			for i := 0; i < 2; i++ {
+				add("create from=%d kind=ok nonce=%d value=%d gas=3000000", i, nonce[i], values[r.Intn(5)])
+				born = append(born, created(i, nonce[i], "ok"))
+				nonce[i]++
+			}
+			add("ain from=2 w=0 amount=30000000000 nonce=%d", nonce[2])
+			nonce[2]++
+			funded = true
+			g.Count("contracts:create:ok")
+		}
+		for t := 0; t < ntx; t++ {
+			from := r.Intn(3)
+			v := values[r.Intn(len(values))]
+			switch k := r.Intn(16); {
+			case k < 3: // creation: every kind, with and without value, ample gas
+				kind := []string{"ok", "empty", "revert", "invalid", "big", "max", "json"}[r.Intn(7)]
+				gas := uint64(3000000)
+				switch kind {
+				case "max":
+					gas = 6000000
+				case "json": // not "contract data" for the gas rule: the exact plain-transfer gas is demanded
+					gas = appsim.PlainTransferGas(v)
+				}
+				add("create from=%d kind=%s nonce=%d value=%d gas=%d", from, kind, nonce[from], v, gas)
+				j := created(from, nonce[from], kind)
+				nonce[from]++
+				if kind == "ok" {
+					born = append(born, j)
+				}
+				g.Count("contracts:create:" + kind)
+			case k == 3: // creation at the gas boundaries: intrinsic gas exactly / one less (refused), code deposit not affordable
+				kind := []string{"ok", "max", "empty"}[r.Intn(3)]
+				tg := uint64(0)
+				if v > 0 {
+					tg = appsim.CallTransferGas(v)
+				}
+				intr := appsim.CreateIntrinsicGas(kind)
+				gas := []uint64{intr - 1, intr, intr + tg, intr + tg + appsim.CreateDepositGas(kind)/2, intr + tg + appsim.CreateDepositGas(kind) + 100}[r.Intn(5)]
+				add("create from=%d kind=%s nonce=%d value=%d gas=%d", from, kind, nonce[from], v, gas)
+				// (below the intrinsic gas, or below the admission rule's value gas, the transaction is refused and the nonce is not used:
+				// the next op of this sender re-uses it; the dry run decides)
+				created(from, nonce[from], kind)
+				if gas >= intr && (v == 0 || gas >= appsim.PlainTransferGas(v)) {
+					nonce[from]++
+				}
+				g.Count("contracts:create:gas-boundary")
+			case k < 8: // the genesis Mover: keep / forward / transfer-opcode / forward-then-revert / forward-then-invalid / half / sweep
+				m := []int{appsim.MvKeep, appsim.MvForward, appsim.MvTransfer, appsim.MvFwdRevert, appsim.MvFwdInvalid, appsim.MvHalf, appsim.MvSweep}[r.Intn(7)]
+				if m == appsim.MvHalf {
+					v -= v % 2
+				}
+				gas := 3000000
+				if r.Intn(5) == 0 {
+					gas = 1000000 // not enough for the value-proportional charge of the inner transfer: the call fails
+				}
+				add("mcall from=%d nonce=%d m=%d to=%s value=%d gas=%d", from, nonce[from], m, target(), v, gas)
+				nonce[from]++
+				g.Count(fmt.Sprintf("contracts:mover:m=%d", m))
+			case k < 10: // SELFDESTRUCT of a created instance: to an account, to a fresh address, to itself (designed destruction)
+				if len(alive) == 0 {
+					continue
+				}
+				j := alive[r.Intn(len(alive))]
+				if touched[j] && !PayDeadContractInSameBlock {
+					continue
+				}
+				to := target()
+				if r.Intn(3) == 0 {
+					to = fmt.Sprintf("c%d", j)
+					g.Count("contracts:selfdestruct:to-itself")
+				} else {
+					g.Count("contracts:selfdestruct:to-other")
+				}
+				add("mcall from=%d nonce=%d m=2 to=%s at=%d value=%d gas=3000000", from, nonce[from], to, j, v)
+				nonce[from]++
+				touched[j] = true
+				for i, x := range alive {
+					if x == j {
+						alive = append(alive[:i], alive[i+1:]...)
+						break
+					}
+				}
+				if PayDeadContractInSameBlock && r.Intn(2) == 0 {
+					f2 := (from + 1) % 3
+					add("mcall from=%d nonce=%d m=0 to=a0 at=%d value=%d gas=3000000", f2, nonce[f2], j, 1+v)
+					nonce[f2]++
+				}
+			case k == 10: // a created instance keeps / forwards value
+				if len(alive) == 0 {
+					continue
+				}
+				j := alive[r.Intn(len(alive))]
+				m := []int{appsim.MvKeep, appsim.MvForward, appsim.MvSweep}[r.Intn(3)]
+				add("mcall from=%d nonce=%d m=%d to=%s at=%d value=%d gas=3000000", from, nonce[from], m, target(), j, v)
+				nonce[from]++
+				touched[j] = true
+				g.Count("contracts:instance-call")
+			case k == 11: // token value into the Mover: kept, or passed on with the token-transfer opcode
+				m := []int{appsim.MvKeep, appsim.MvTransferTk}[r.Intn(2)]
+				add("mcall from=%d nonce=%d m=%d to=%s value=%d tok=1", from, nonce[from], m, target(), 1+r.Intn(1000))
+				nonce[from]++
+				g.Count("contracts:token-value-to-mover")
+			case k == 12: // token value into the test contract (stays on success, returns on revert)
+				c := r.Intn(40)
+				if r.Intn(3) == 0 {
+					c = 255
+				}
+				add("calltok from=%d nonce=%d c=%d value=%d", from, nonce[from], c, r.Intn(1000))
+				nonce[from]++
+				g.Count("contracts:token-value-to-contract")
+			case k == 13: // plain transfer to an address that does not exist yet; with a gas limit that is not the exact one: refused
+				if r.Intn(4) == 0 {
+					add("xferx from=%d nonce=%d to=b%d amount=%d gas=%d", from, nonce[from], r.Intn(2), 1+v, appsim.PlainTransferGas(1+v)+uint64(1+r.Intn(1000)))
+				} else {
+					add("xferx from=%d nonce=%d to=b%d amount=%d", from, nonce[from], r.Intn(2), 1+v)
+					nonce[from]++
+				}
+				g.Count("contracts:transfer-to-new-address")
+			case k == 14: // confidential transactions of refused shapes
+				switch r.Intn(3) {
+				case 0:
+					add("uxbad shape=ainaout from=%d w=0 to=%d amount=%d nonce=%d", from, r.Intn(3), 20000000000+r.Intn(1000), nonce[from])
+				case 1:
+					if funded {
+						add("uxbad shape=aout2 w=0 in=0 amount=%d", 1+r.Intn(100000))
+					}
+				default:
+					if funded {
+						add("uxbad shape=cout w=0 in=0 amount=%d", 1+r.Intn(100000))
+					}
+				}
+				g.Count("contracts:refused-shape")
+			default:
+				add("xfer from=%d to=%d amount=%d nonce=%d", from, r.Intn(3), 1+r.Intn(100000), nonce[from])
+				nonce[from]++
+			}
+		}
+		add("block")
+		height++
+		alive = append(alive, born...)
+		add("balx")
+		add("recs h=%d", height)
+		if r.Intn(3) == 0 {
+			add("nonces")
+		}
+	}
+	return ops
+}
+
+// xMon: monitors over the extended observation (`balx`, `recs`) of the contract streams.
+type xMon struct {
+	prev     map[string][]int64 // bucket vectors of the previous balx
+	cur      map[string][]int64
+	have     bool
+	opOf     map[string][]string // tx id -> tokens of the op that built it
+	burn     int64               // designed destruction expected in the block just committed (units)
+	burnAt   map[int]int64       // per created index: what its self-destruction in favour of itself destroyed
+	lastRecs bool
+}
+
+func newXMon() *xMon { return &xMon{opOf: map[string][]string{}, burnAt: map[int]int64{}} }
+
+func parseVec(s string) []int64 {
+	var out []int64
+	if s == "" {
+		return out
+	}
+	for _, x := range strings.Split(s, ",") {
+		for _, y := range strings.Split(x, "/") {
+			var v int64
+			fmt.Sscan(y, &v)
+			out = append(out, v)
+		}
+	}
+	return out
+}
+
+func parseBuckets(ans string, keys []string) map[string][]int64 {
+	a := hx.Tokens(ans)
+	m := map[string][]int64{}
+	for _, k := range keys {
+		v, _ := hx.Arg(a, k)
+		m[k] = parseVec(v)
+	}
+	return m
+}
+
+var xKeys = []string{"a", "t", "f", "z", "zt", "m", "b", "c", "pool", "supply", "toksupply"}
+var rKeys = []string{"a", "t", "f", "z", "zt", "m", "b", "c", "p", "mint", "burn", "unk"}
+
+func at(v []int64, i int) int64 {
+	if i < len(v) {
+		return v[i]
+	}
+	return 0
+}
+
+func (x *xMon) step(op string, toks []string, ans string) []hx.Failure {
+	var fs []hx.Failure
+	a := hx.Tokens(ans)
+	if id, ok := hx.Arg(a, "id"); ok {
+		x.opOf[id] = toks
+	}
+	switch toks[0] {
+	case "case":
+		*x = *newXMon()
+	case "uxbad":
+		if strings.Contains(ans, "admit=ok") {
+			fs = append(fs, hx.Failure{Monitor: "confidential_shape_enforced", Class: "refused-shape-admitted", Site: "types/tx_utxo.go:checkTxSemantic",
+				Msg: "a confidential transaction with an account input AND an account output, with two account outputs, or with an account output to a contract was admitted " +
+					"(transitOutputs / payIntrinsicGas / refundGas handle at most one account-side output correctly): " + op})
+		}
+	case "block", "forceblock":
+		x.burn = 0
+		x.burnAt = map[int]int64{}
+		if !strings.HasPrefix(ans, "h=") || !x.have {
+			return fs
+		}
+		ids, _ := hx.Arg(a, "txs")
+		for _, id := range hx.SplitComma(ids) {
+			t := x.opOf[id]
+			if len(t) == 0 || t[0] != "mcall" {
+				continue
+			}
+			m, _ := hx.Arg(t, "m")
+			to, _ := hx.Arg(t, "to")
+			j, _ := hx.Arg(t, "at")
+			st, _ := hx.Arg(t, "st")
+			if m == "2" && j != "" && to == "c"+j && st == "1" {
+				// a contract self-destructing in favour of itself: its holdings (and what this call brought) are destroyed — by design
+				var ji int
+				var v int64
+				fmt.Sscan(j, &ji)
+				vs, _ := hx.Arg(t, "value")
+				fmt.Sscan(vs, &v)
+				d := at(x.cur["c"], ji) + v
+				x.burn += d
+				x.burnAt[ji] += d
+			}
+		}
+	case "balx":
+		cur := parseBuckets(ans, xKeys)
+		if x.have {
+			if got, want := at(cur["supply"], 0), at(x.cur["supply"], 0)-x.burn; got != want {
+				fs = append(fs, hx.Failure{Monitor: "native_supply_conserved", Class: "native-supply-changed", Site: "app/state_transition.go:transitOutputs",
+					Msg: fmt.Sprintf("total native supply over every observed address (accounts, foundation, zero address, coinbase, test contracts, beneficiaries, created contracts, pool) is %d units, expected %d (designed destruction in this block: %d)", got, want, x.burn)})
+			}
+			if got, want := at(cur["toksupply"], 0), at(x.cur["toksupply"], 0); got != want {
+				fs = append(fs, hx.Failure{Monitor: "token_supply_conserved", Class: "token-supply-changed", Site: "app/state_transition.go:transitOutputs",
+					Msg: fmt.Sprintf("total token supply over every observed address changed from %d to %d units", want, got)})
+			}
+		}
+		x.prev, x.cur, x.have = x.cur, cur, true
+		x.lastRecs = false
+	case "recs":
+		if !strings.HasPrefix(ans, "a=") || x.prev == nil {
+			return fs
+		}
+		rec := parseBuckets(ans, rKeys)
+		if at(rec["unk"], 0) != 0 || at(rec["mint"], 0) != 0 || at(rec["burn"], 0) != 0 {
+			fs = append(fs, hx.Failure{Monitor: "audit_log_matches_state", Class: "record-names-unobserved-address", Site: "types/balance_record.go",
+				Msg: "the block's balance records name an address / token outside the observed set, or value from / to nowhere: " + ans})
+		}
+		for _, k := range []string{"a", "t", "f", "z", "zt", "m", "b", "c"} {
+			n := len(x.cur[k])
+			for i := 0; i < n; i++ {
+				diff := at(x.cur[k], i) - at(x.prev[k], i)
+				want := at(rec[k], i)
+				if k == "c" {
+					want -= x.burnAt[i]
+				}
+				if diff != want {
+					fs = append(fs, hx.Failure{Monitor: "audit_log_matches_state", Class: "state-change-differs-from-records", Site: "app/state_transition.go:genTransitTxRecord",
+						Msg: fmt.Sprintf("bucket %s[%d] changed by %d units over the block, the application's own balance records of that block say %d (a record the state does not reflect, or a movement without a record): %s", k, i, diff, want, ans)})
+				}
+			}
+		}
+		if diff, want := at(x.cur["pool"], 0)-at(x.prev["pool"], 0), at(rec["p"], 0); diff != want {
+			fs = append(fs, hx.Failure{Monitor: "audit_log_matches_state", Class: "pool-change-differs-from-records", Site: "app/state_transition.go:genTransitTxRecord",
+				Msg: fmt.Sprintf("the confidential pool as its owners see it changed by %d units, the balance records say %d", diff, want)})
+		}
+	}
+	return fs
+}
